@@ -16,8 +16,9 @@ import (
 )
 
 type Decision struct {
-	Kind byte   // 'b' branch taken (Val 1 = true side), 'f' forced branch, 'v' chosen value, 'u' forced value
-	Val  uint64 //
+	Kind byte     // 'b' branch taken (Val 1 = true side), 'f' forced branch, 'v' chosen value(s), 'u' forced value(s), 'a' violated assertion
+	Val  uint64   //
+	Vals []uint64 // value tuple for 'v'/'u'
 }
 
 func decString(ds []Decision) string {
@@ -183,6 +184,8 @@ type pathState struct {
 	nviol     int
 	nassert   int
 	onceDone  map[*value]bool
+	known     map[uint64][]knownEnt
+	curModel  map[string]uint64 // a model of the current path condition, if known
 	fresh     int
 }
 
@@ -220,10 +223,65 @@ func (ps *pathState) unknown() {
 	ps.ex.mu.Unlock()
 }
 
+// ---- cheap decisions before asking the solver ------------------------------
+
+type knownEnt struct {
+	t   *Term
+	val bool
+}
+
+// remember records that c has truth value v on this path from now on.
+func (ps *pathState) remember(c *Term, v bool) {
+	if ps.known == nil {
+		ps.known = map[uint64][]knownEnt{}
+	}
+	ps.known[c.h] = append(ps.known[c.h], knownEnt{c, v})
+}
+
+// lookupKnown reports whether c (or its negation) was already decided.
+func (ps *pathState) lookupKnown(c *Term) (bool, bool) {
+	for _, e := range ps.known[c.h] {
+		if sameTerm(e.t, c) {
+			return e.val, true
+		}
+	}
+	if c.op == "not" {
+		for _, e := range ps.known[c.args[0].h] {
+			if sameTerm(e.t, c.args[0]) {
+				return !e.val, true
+			}
+		}
+	}
+	return false, false
+}
+
+// holdsInModel evaluates c under the cached model of the path condition.
+func (ps *pathState) holdsInModel(c *Term) (bool, bool) {
+	if ps.curModel == nil {
+		return false, false
+	}
+	return evalTerm(c, ps.curModel, map[*Term]uint64{}) == 1, true
+}
+
+// query asks whether PC and extra is satisfiable; on sat the model becomes a
+// candidate cached model (valid for PC and extra).
+func (ps *pathState) query(extra *Term) (SatResult, map[string]uint64) {
+	m, r := ps.solver.ModelWith(extra, ps.inputs)
+	ps.solver.Stats.Feasibility++
+	if r == Unknown {
+		ps.unknown()
+	}
+	return r, m
+}
+
 // branch decides a symbolic condition, forking if both sides are feasible.
 func (ps *pathState) branch(c *Term) bool {
 	if c.isConst() {
 		return c.val == 1
+	}
+	if v, ok := ps.lookupKnown(c); ok {
+		ps.stat(func(s *Stats) { s.Folded++ })
+		return v
 	}
 	if ps.inReplay() {
 		d := ps.prefix[ps.pos]
@@ -239,43 +297,59 @@ func (ps *pathState) branch(c *Term) bool {
 				ps.solver.Assert(mkNot(c))
 			}
 		}
+		ps.remember(c, d.Val == 1)
 		return d.Val == 1
 	}
 	ps.pos++
-	rT := ps.solver.CheckWith(c)
-	ps.ex.mu.Lock()
-	ps.ex.Stats.Unknown += 0
-	ps.ex.mu.Unlock()
-	ps.solver.Stats.Feasibility++
-	var rF SatResult
-	if rT == Unsat {
-		rF = Sat // path condition is satisfiable by invariant
-	} else {
-		rF = ps.solver.CheckWith(mkNot(c))
-		ps.solver.Stats.Feasibility++
+	// the cached model of the path condition settles one side for free
+	var rT, rF SatResult = Unknown, Unknown
+	var mT, mF map[string]uint64
+	haveT, haveF := false, false
+	if v, ok := ps.holdsInModel(c); ok {
+		if v {
+			rT, mT, haveT = Sat, ps.curModel, true
+		} else {
+			rF, mF, haveF = Sat, ps.curModel, true
+		}
 	}
-	if rT == Unknown {
-		ps.unknown()
-		rT = Sat
+	if !haveT {
+		rT, mT = ps.query(c)
+		if rT == Unknown {
+			rT = Sat
+			mT = nil
+		}
 	}
-	if rF == Unknown {
-		ps.unknown()
-		rF = Sat
+	if !haveF {
+		if rT == Unsat {
+			rF, mF = Sat, ps.curModel // the path condition is satisfiable by invariant
+		} else {
+			rF, mF = ps.query(mkNot(c))
+			if rF == Unknown {
+				rF = Sat
+				mF = nil
+			}
+		}
 	}
 	switch {
 	case rT == Sat && rF == Sat:
-		alt := append(append([]Decision{}, ps.decisions...), Decision{'b', 0})
+		alt := append(append([]Decision{}, ps.decisions...), Decision{Kind: 'b', Val: 0})
 		ps.ex.push(alt)
-		ps.decisions = append(ps.decisions, Decision{'b', 1})
+		ps.decisions = append(ps.decisions, Decision{Kind: 'b', Val: 1})
 		ps.solver.Assert(c)
+		ps.curModel = mT
+		ps.remember(c, true)
 		ps.stat(func(s *Stats) { s.Forks++ })
 		return true
 	case rT == Sat:
-		ps.decisions = append(ps.decisions, Decision{'f', 1})
+		ps.decisions = append(ps.decisions, Decision{Kind: 'f', Val: 1})
+		ps.curModel = mT
+		ps.remember(c, true)
 		ps.stat(func(s *Stats) { s.Pruned++ })
 		return true
 	default:
-		ps.decisions = append(ps.decisions, Decision{'f', 0})
+		ps.decisions = append(ps.decisions, Decision{Kind: 'f', Val: 0})
+		ps.curModel = mF
+		ps.remember(c, false)
 		ps.stat(func(s *Stats) { s.Pruned++ })
 		return false
 	}
@@ -291,8 +365,35 @@ const maxConcretize = 300
 
 // concretize picks a concrete value for t, forking over all feasible values.
 func (ps *pathState) concretize(t *Term) uint64 {
-	if t.isConst() {
-		return t.val
+	return ps.concretizeMany([]*Term{t})[0]
+}
+
+// concretizeMany picks a joint concrete assignment for ts, forking over all
+// feasible tuples.
+func (ps *pathState) concretizeMany(ts []*Term) []uint64 {
+	allConst := true
+	for _, t := range ts {
+		if !t.isConst() {
+			allConst = false
+		}
+	}
+	if allConst {
+		out := make([]uint64, len(ts))
+		for i, t := range ts {
+			out[i] = t.val
+		}
+		return out
+	}
+	eqAll := func(vals []uint64) *Term {
+		c := tTrue
+		for i, t := range ts {
+			if t.w == 0 {
+				c = mkAnd(c, mkEq(t, mkBoolConst(vals[i] == 1)))
+			} else {
+				c = mkAnd(c, mkEq(t, mkBV(t.w, vals[i])))
+			}
+		}
+		return c
 	}
 	if ps.inReplay() {
 		d := ps.prefix[ps.pos]
@@ -301,16 +402,33 @@ func (ps *pathState) concretize(t *Term) uint64 {
 		if d.Kind != 'v' && d.Kind != 'u' {
 			panic(pathAbort{"unsupported", "replay divergence: expected value decision"})
 		}
-		if d.Kind == 'v' {
-			ps.solver.Assert(mkEq(t, mkBV(t.w, d.Val)))
+		vals := d.Vals
+		if vals == nil {
+			vals = []uint64{d.Val}
 		}
-		return d.Val
+		if len(vals) != len(ts) {
+			panic(pathAbort{"unsupported", "replay divergence: value tuple size"})
+		}
+		if d.Kind == 'v' {
+			ps.solver.Assert(eqAll(vals))
+		}
+		return vals
 	}
 	ps.pos++
-	var vals []uint64
+	var tuples [][]uint64
 	block := tTrue
+	// the cached model gives the first tuple for free
+	if ps.curModel != nil {
+		memo := map[*Term]uint64{}
+		first := make([]uint64, len(ts))
+		for i, t := range ts {
+			first[i] = evalTerm(t, ps.curModel, memo)
+		}
+		tuples = append(tuples, first)
+		block = mkAnd(block, mkNot(eqAll(first)))
+	}
 	for {
-		m, r := ps.solver.ModelWith(block, []*Term{t})
+		m, r := ps.solver.ModelWith(block, ts)
 		ps.solver.Stats.Feasibility++
 		if r == Unknown {
 			ps.unknown()
@@ -319,37 +437,49 @@ func (ps *pathState) concretize(t *Term) uint64 {
 		if r == Unsat {
 			break
 		}
-		var v uint64
-		for _, x := range m {
-			v = x
+		vals := make([]uint64, len(ts))
+		for i, t := range ts {
+			if t.isConst() {
+				vals[i] = t.val
+				continue
+			}
+			key := ps.solver.names[t]
+			if t.op == "var" {
+				key = t.name
+			}
+			vals[i] = m[key]
 		}
-		if t.w == 0 {
-			block = mkAnd(block, mkNot(mkEq(t, mkBoolConst(v == 1))))
-		} else {
-			block = mkAnd(block, mkNot(mkEq(t, mkBV(t.w, v))))
-		}
-		vals = append(vals, v)
-		if len(vals) > maxConcretize {
+		block = mkAnd(block, mkNot(eqAll(vals)))
+		tuples = append(tuples, vals)
+		if len(tuples) > maxConcretize {
 			unsupported("concretisation of a value with more than %d alternatives", maxConcretize)
 		}
 	}
-	if len(vals) == 0 {
+	if len(tuples) == 0 {
 		panic(pathAbort{"infeasible", "no value"})
 	}
-	sort.Slice(vals, func(i, j int) bool { return vals[i] < vals[j] })
-	if len(vals) == 1 {
-		ps.decisions = append(ps.decisions, Decision{'u', vals[0]})
+	sort.Slice(tuples, func(i, j int) bool {
+		for k := range tuples[i] {
+			if tuples[i][k] != tuples[j][k] {
+				return tuples[i][k] < tuples[j][k]
+			}
+		}
+		return false
+	})
+	if len(tuples) == 1 {
+		ps.decisions = append(ps.decisions, Decision{Kind: 'u', Val: tuples[0][0], Vals: tuples[0]})
 		ps.stat(func(s *Stats) { s.Pruned++ })
-		return vals[0]
+		return tuples[0]
 	}
-	for i := len(vals) - 1; i >= 1; i-- {
-		alt := append(append([]Decision{}, ps.decisions...), Decision{'v', vals[i]})
+	for i := len(tuples) - 1; i >= 1; i-- {
+		alt := append(append([]Decision{}, ps.decisions...), Decision{Kind: 'v', Val: tuples[i][0], Vals: tuples[i]})
 		ps.ex.push(alt)
 	}
-	ps.decisions = append(ps.decisions, Decision{'v', vals[0]})
-	ps.solver.Assert(mkEq(t, mkBV(t.w, vals[0])))
+	ps.decisions = append(ps.decisions, Decision{Kind: 'v', Val: tuples[0][0], Vals: tuples[0]})
+	ps.solver.Assert(eqAll(tuples[0]))
+	ps.curModel = nil // the cached model need not satisfy the chosen tuple
 	ps.stat(func(s *Stats) { s.Forks++ })
-	return vals[0]
+	return tuples[0]
 }
 
 // assume restricts the path to c.
@@ -360,17 +490,23 @@ func (ps *pathState) assume(c *Term) {
 		}
 		return
 	}
-	if !ps.inReplay() {
-		r := ps.solver.CheckWith(c)
-		ps.solver.Stats.Feasibility++
-		if r == Unsat {
+	if v, ok := ps.lookupKnown(c); ok {
+		if !v {
 			panic(pathAbort{"infeasible", "assume"})
 		}
-		if r == Unknown {
-			ps.unknown()
+		return
+	}
+	if !ps.inReplay() {
+		if v, ok := ps.holdsInModel(c); !ok || !v {
+			r, m := ps.query(c)
+			if r == Unsat {
+				panic(pathAbort{"infeasible", "assume"})
+			}
+			ps.curModel = m
 		}
 	}
 	ps.solver.Assert(c)
+	ps.remember(c, true)
 }
 
 func (ps *pathState) model(extra *Term) (map[string]uint64, SatResult) {
@@ -407,7 +543,15 @@ func (ps *pathState) assert(c *Term, label string, stack []string) {
 		ps.stat(func(s *Stats) { s.Discharged++ })
 		return
 	}
-	m, r := ps.model(mkNot(c))
+	var m map[string]uint64
+	var r SatResult
+	if v, ok := ps.holdsInModel(c); ok && !v {
+		m, r = ps.curModel, Sat // the cached model is a counterexample
+	} else if kv, known := ps.lookupKnown(c); known && kv {
+		r = Unsat
+	} else {
+		m, r = ps.model(mkNot(c))
+	}
 	switch r {
 	case Unsat:
 		ps.stat(func(s *Stats) { s.Discharged++ })
@@ -417,6 +561,7 @@ func (ps *pathState) assert(c *Term, label string, stack []string) {
 		ps.solver.Assert(c)
 		return
 	}
+	m = completeModel(m, ps.inputs)
 	v := Violation{Label: label, Model: m, Decisions: decString(ps.decisions), Inputs: ps.inputDecls(), Stack: stack}
 	ps.ex.mu.Lock()
 	ps.ex.Violations = append(ps.ex.Violations, v)
@@ -428,7 +573,8 @@ func (ps *pathState) assert(c *Term, label string, stack []string) {
 	ps.nviol++
 	// continue on the side where the assertion holds
 	ps.pos++
-	ps.decisions = append(ps.decisions, Decision{'a', uint64(ps.nassert)})
+	ps.decisions = append(ps.decisions, Decision{Kind: 'a', Val: uint64(ps.nassert)})
+	ps.curModel = nil
 	ps.assume(c)
 }
 
@@ -462,4 +608,14 @@ func (ps *pathState) witness(id string, c *Term) {
 		ps.ex.Stats.Witnesses++
 	}
 	ps.ex.mu.Unlock()
+}
+
+// completeModel makes sure every declared input has a value (inputs the
+// solver never saw are unconstrained: 0).
+func completeModel(m map[string]uint64, inputs []*Term) map[string]uint64 {
+	out := map[string]uint64{}
+	for _, t := range inputs {
+		out[t.name] = m[t.name]
+	}
+	return out
 }
